@@ -137,6 +137,22 @@ def warnings_case(ctx):
             # a long chain without any applicable link: many records in one run, each needs its own warning
             ff = ffgen.gen_ff(rng, nlinks=0, uniform_nrexcl=1)
             g = ffgen.gen_resgraph(rng, ff, nres=rng.randint(55, 130), shape='path')
+        elif k % 3 == 2:
+            # residues joined only by a bond that a by_atom_id link makes (ring closure / end group attached by atom number)
+            ff = ffgen.gen_ff(rng, uniform_nrexcl=1, nlinks=rng.randint(0, 1))
+            g = ffgen.gen_resgraph(rng, ff, nres=rng.randint(2, 5), shape=rng.choice(['path', 'ring']))
+            by = {b['name']: b for b in ff['blocks']}
+            first, off = [], 1
+            for n in g['resnames']:
+                first.append(off)
+                off += len(by[n]['atoms'])
+            rows = []
+            for a, b in g['edges']:
+                if rng.random() < 0.6:
+                    rows.append({'atoms': [first[a] + len(by[g['resnames'][a]]['atoms']) - 1, first[b]], 'params': ['1', '0.400', '3000.000']})
+            if rows:
+                ff['explicit_links'] = [{'bonds': rows}]
+                ctx.feature('residues_joined_by_atom_id_link')
         else:
             ff = ffgen.gen_ff(rng, uniform_nrexcl=1)
             g = ffgen.gen_resgraph(rng, ff, nres=rng.randint(2, 5), shape='path')
@@ -179,6 +195,19 @@ def warnings_case(ctx):
         if sorted(got) != sorted(names):
             ctx.violation('spec', f"gen_params warnings {got} do not match the missing-link records {names}",
                           {'ff': ff, 'graph': g, 'gen_params': True})
+        # the statement, recounted on the finished molecule: a residue-graph edge is warned about exactly if no atom-level
+        # edge joins the two residues
+        resid_of = {a['key']: a['resid'] for a in plain['links']['atoms']}
+        joined = {frozenset((resid_of[a], resid_of[b])) for a, b in plain['links']['edges'] if resid_of[a] != resid_of[b]}
+        for a, b in g['edges']:
+            ra, rb = sorted((g['r0'] + a, g['r0'] + b))
+            warned = any(m.startswith(f"Missing a link between residue {ra} ") and f" and residue {rb} " in m for m in got) or \
+                any(m.startswith(f"Missing a link between residue {rb} ") and f" and residue {ra} " in m for m in got)
+            if warned == (frozenset((ra, rb)) in joined):
+                ctx.violation('spec', f"residues {ra} and {rb} are connected in the residue graph: joined by an atom-level edge = "
+                              f"{frozenset((ra, rb)) in joined}, reported as missing by gen_params = {warned} (exactly one must hold)",
+                              {'ff': ff, 'graph': g, 'gen_params': True})
+                break
 
 
 def gate(ctx):
